@@ -124,6 +124,9 @@ def depends(rep, repo):
     c03.parity(rep, K)
     c07.schedule_rules(rep, repo)
     c08.map_rules(rep, repo)
+    # the op list is built from Circuit.topological_order(): its traversal rules (C17) are part of this check
+    from checks import c17
+    c17.order_rules(rep, repo)
 
 
 def thorough(rep, repo):
